@@ -168,6 +168,10 @@ pub fn serve(sc: &Scenario, ids: &[String], r: &Req) -> SvcRes {
     let num: usize = f.trim_start_matches(|c: char| c.is_alphabetic()).parse().unwrap_or(0);
     let v = if f.starts_with("fail") {
         return (1 + (num % 7) as i32, json!(format!("boom {f} {}", short_digest(&args))).to_string());
+    } else if f.starts_with("rdec") {
+        // terminating recursion over objects: {"n": k} -> {"n": k-1}; anything without "n" counts as n = 1
+        let n = r.args.first().and_then(|a| a.get("n")).and_then(|n| n.as_i64()).unwrap_or(1);
+        json!({"n": n - 1, "from": short_digest(&args), "f": f})
     } else if f.starts_with("seed") {
         json!(2)
     } else if f.starts_with("dec") {
@@ -409,6 +413,9 @@ impl World {
                 *self.stats.codes.entry(out.code.to_string()).or_default() += 1;
                 for (n, _) in &out.probes {
                     *self.stats.probes.entry(n.clone()).or_default() += 1;
+                    if n == "stream_fold_unvisited_values" {
+                        taint.insert("F16".into());
+                    }
                     if n == "fold_end_leftover_lore" {
                         taint.insert("F1".into());
                     }
